@@ -85,6 +85,30 @@ def toServer (cfg : Cfg) (s : Sap) (k : Key) (a : Apdu) : Sap × List Out :=
   | none => (s, [])
   | some t => s.setServer k (serverIndication cfg s.now t.key t.body a)
 
+/-- in-place update of the cached record of `peer` (`update_device_info`) -/
+def Sap.withDI (s : Sap) (peer : Peer) : Option DeviceInfo → Sap
+  | some d => { s with devInfo := setDI s.devInfo peer d }
+  | none => s
+
+/-- `tr = ServerSSM(self, source); serverTransactions.append(tr); tr.indication(apdu)`
+    for a request whose key `k` has no transaction yet -/
+def serverCreate (cfg : Cfg) (s : Sap) (k : Key) (a : Apdu) : Sap × List Out :=
+  let b := newBody cfg s k.peer
+  let di := promote a.sa (heldDI s k b)
+  let s1 := s.withDI k.peer di
+  match serverIdle cfg s.now di k b a with
+  | (some b', outs) => ({ s1 with servers := s1.servers ++ [⟨k, b'⟩] }, outs)
+  | (none, outs) => (s1, outs)
+
+/-- `tr = ClientSSM(self, destination); clientTransactions.append(tr); tr.indication(apdu)`
+    for a request that got the (free) key `k` -/
+def clientCreate (cfg : Cfg) (s : Sap) (k : Key) (service : Nat) (data : Bytes) : Sap × List Out :=
+  let b := newBody cfg s k.peer
+  let req : Apdu := { ty := 0, service := service, invokeId := k.id, data := data }
+  match clientIndication cfg s.now (heldDI s k b) k b req with
+  | (some b', outs) => ({ s with clients := s.clients ++ [⟨k, b'⟩] }, outs)
+  | (none, outs) => (s, outs)
+
 /-- the DCC gate of `confirmation` -/
 def dccInbound (d : Dcc) (a : Apdu) : Bool :=
   match d with
@@ -108,16 +132,7 @@ def smapConfirmation (cfg : Cfg) (s : Sap) (peer : Peer) (a : Apdu) : Sap × Lis
     | 0 =>
       match findTxn k s.servers with
       | some t => s.setServer k (serverIndication cfg s.now t.key t.body a)
-      | none =>
-        -- `tr = ServerSSM(self, source); serverTransactions.append(tr); tr.indication(apdu)`
-        let b := newBody cfg s peer
-        let di := promote a.sa (heldDI s k b)
-        let s := match di with
-          | some d => { s with devInfo := setDI s.devInfo peer d }
-          | none => s
-        match serverIdle cfg s.now di k b a with
-        | (some b', outs) => ({ s with servers := s.servers ++ [⟨k, b'⟩] }, outs)
-        | (none, outs) => (s, outs)
+      | none => serverCreate cfg s k a
     | 1 => (s, [.indicate peer a])
     | 2 | 3 | 5 | 6 => toClient cfg s k a
     | 4 | 7 => if a.srv then toClient cfg s k a else toServer cfg s k a
@@ -128,23 +143,15 @@ def smapRequest (cfg : Cfg) (s : Sap) (peer : Peer) (service : Nat) (data : Byte
     (chosen : Option Nat) : Sap × List Out :=
   if !dccOutbound s.dcc 0 service then (s, [])
   else
-    let alloc : Option Nat × Sap :=
-      match chosen with
-      | none =>
-        let (r, next) := getNextInvokeId s peer
-        (r, { s with nextId := next })
-      | some id => (some id, s)
-    match alloc with
-    | (none, s) => (s, [.raised .noFreeId])
-    | (some id, s) =>
-      if chosen.isSome && idLive s.clients peer id then (s, [.raised .idInUse])
-      else
-        let k : Key := ⟨peer, id⟩
-        let b := newBody cfg s peer
-        let req : Apdu := { ty := 0, service := service, invokeId := id, data := data }
-        match clientIndication cfg s.now (heldDI s k b) k b req with
-        | (some b', outs) => ({ s with clients := s.clients ++ [⟨k, b'⟩] }, outs)
-        | (none, outs) => (s, outs)
+    match chosen with
+    | some id =>
+      -- verify the invoke ID isn't already being used
+      if idLive s.clients peer id then (s, [.raised .idInUse])
+      else clientCreate cfg s ⟨peer, id⟩ service data
+    | none =>
+      match getNextInvokeId s peer with
+      | (none, next) => ({ s with nextId := next }, [.raised .noFreeId])
+      | (some id, next) => clientCreate cfg { s with nextId := next } ⟨peer, id⟩ service data
 
 /-- `StateMachineAccessPoint.sap_confirmation(apdu)`: the application answers -/
 def smapResponse (cfg : Cfg) (s : Sap) (peer : Peer) (a : Apdu) : Sap × List Out :=
